@@ -333,6 +333,7 @@ def main(argv, props=None):
     tier = os.environ.get('VERIF_TIER', 'quick')
     replay = None
     only_stage = None
+    build_only = False
     i = 1
     while i < len(argv):
         if argv[i] == '--tier':
@@ -341,6 +342,8 @@ def main(argv, props=None):
             replay = argv[i + 1]; i += 2
         elif argv[i] == '--stage':
             only_stage = argv[i + 1]; i += 2
+        elif argv[i] == '--build-only':
+            build_only = True; i += 1
         else:
             log('unknown argument', argv[i]); return 2
     if pid not in PROPS:
@@ -356,10 +359,10 @@ def main(argv, props=None):
             print('VIOLATION property=%s replay=%s' % (pid, os.path.abspath(replay)))
             return 1
         return 0
-    return run_check(pid, spec, tier, seed, only_stage)
+    return run_check(pid, spec, tier, seed, only_stage, build_only)
 
 
-def run_check(pid, spec, tier, seed, only_stage=None):
+def run_check(pid, spec, tier, seed, only_stage=None, build_only=False):
     t_start = time.time()
     known = load_known()
     stages = [s for s in spec['stages'] if (only_stage is None or s.name == only_stage) and (tier == 'thorough' or not getattr(s, 'thorough_only', False))]
@@ -383,6 +386,8 @@ def run_check(pid, spec, tier, seed, only_stage=None):
                 return 1
             return 2
     prune_builds(pid, {s.dir for s in stages})
+    if build_only:
+        return 0
 
     violations, known_hits, unconfirmed, notes = [], {}, [], []
     # configurations (operation libraries) that do not compile against the current tree
